@@ -1,5 +1,5 @@
 SPECIFICATION BSpec
-CONSTANTS MaxChrom = 1  MaxUnits = 3  Kinds = {"edge", "snp", "ins", "multi", "inv", "nested"}  EndKinds = {"tip", "endsnp"}  Defects = {}  MaxDefects = 0  MinUnits = 0  Pattern <- NoPattern
+CONSTANTS MaxChrom = 1  MaxUnits = 3  Kinds = {"edge", "snp", "ins", "multi", "inv", "nested"}  EndKinds = {"tip", "endsnp"}  Defects = {}  MaxDefects = 0  MinUnits = 0  Pattern <- NoPattern  Wholes = {}
 INVARIANT ConstructionOK
 INVARIANT LexSanity
 CHECK_DEADLOCK FALSE
